@@ -30,6 +30,7 @@ type spExp struct {
 	Unread []int    `json:"unread"`
 	Fb     []bool   `json:"fb"`
 	Srv    []string `json:"srv"`
+	Wbuf   []bool   `json:"wbuf"`
 	Ring   []int    `json:"ring"`
 	Holder []int    `json:"holder"`
 	Sess   []string `json:"sess"`
@@ -114,6 +115,7 @@ type spResult struct {
 const (
 	spSlugDiscard = "pool-discard-without-close"
 	spSlugLate    = "late-reply-into-pooled-stream"
+	spSlugWrite   = "unflushed-write-survives-reuse"
 )
 
 type spWorld struct {
@@ -132,6 +134,8 @@ type spWorld struct {
 	exempt       map[*Stream]bool // dropped without Close, known class listed
 	lateIn       map[*Stream]int  // answers that reached the stream while it was pooled
 	staleOK      map[*Stream]int  // stale messages of a handed-out stream that belong to the listed late class
+	dirtyPut     map[*Stream]bool  // the stream was given back with unflushed bytes in its write buffer
+	pooledOpen   map[*Stream]bool  // the stream was open when it was given back (so: kept for reuse legitimately)
 	arrivals     map[*Stream][]int // per unread answer: the use generation that held the stream when it arrived (0 = pooled)
 	res          *spResult
 	viol         *spViolation
@@ -140,7 +144,7 @@ type spWorld struct {
 
 func spNewWorld(cap, callers int, known []string, res *spResult) (*spWorld, error) {
 	w := &spWorld{cap: cap, callers: callers, res: res, known: map[string]bool{}, exempt: map[*Stream]bool{},
-		lateIn: map[*Stream]int{}, staleOK: map[*Stream]int{}, arrivals: map[*Stream][]int{}, holder: make([]int, callers)}
+		lateIn: map[*Stream]int{}, staleOK: map[*Stream]int{}, arrivals: map[*Stream][]int{}, pooledOpen: map[*Stream]bool{}, dirtyPut: map[*Stream]bool{}, holder: make([]int, callers)}
 	for _, k := range known {
 		w.known[k] = true
 	}
@@ -321,7 +325,7 @@ func (w *spWorld) sessState(p *vpPair) string {
 }
 
 func (w *spWorld) project(n int) *spExp {
-	x := &spExp{St: []string{}, Tab: []bool{}, Unread: []int{}, Fb: []bool{}, Srv: []string{}, Ring: []int{}, Holder: []int{}, Sess: []string{}}
+	x := &spExp{St: []string{}, Tab: []bool{}, Unread: []int{}, Fb: []bool{}, Srv: []string{}, Wbuf: []bool{}, Ring: []int{}, Holder: []int{}, Sess: []string{}}
 	for i := 0; i < n; i++ {
 		if i >= len(w.streams) {
 			x.St = append(x.St, "none")
@@ -329,6 +333,7 @@ func (w *spWorld) project(n int) *spExp {
 			x.Unread = append(x.Unread, 0)
 			x.Fb = append(x.Fb, false)
 			x.Srv = append(x.Srv, "none")
+			x.Wbuf = append(x.Wbuf, false)
 			continue
 		}
 		s := w.streams[i]
@@ -336,6 +341,7 @@ func (w *spWorld) project(n int) *spExp {
 		x.Tab = append(x.Tab, spInTable(s))
 		x.Unread = append(x.Unread, spUnreadBytes(s)/3)
 		x.Fb = append(x.Fb, s.inFallbackState && spState(s) != "closed")
+		x.Wbuf = append(x.Wbuf, spState(s) != "closed" && s.sendBuf.len > 0)
 		if w.srvObj[i] == nil {
 			x.Srv = append(x.Srv, "none")
 		} else {
@@ -405,25 +411,47 @@ func (w *spWorld) oracleHandOut(c int, s *Stream, ringBefore []*Stream) {
 		return
 	}
 	if n := s.sendBuf.Len(); n != 0 {
-		w.fail("fresh-bytes", fmt.Sprintf("GetStream returned stream %d with %d unflushed byte(s) of an earlier use in its write buffer", id, n))
-		return
-	}
-	if n := spUnreadBytes(s); n != 0 {
-		detail := fmt.Sprintf("GetStream returned stream %d to caller %d carrying %d unread byte(s) of an earlier use", id, c, n)
-		if w.lateIn[s]*3 >= n {
-			// the bytes arrived while the stream sat in the pool
-			w.hit(spSlugLate, detail+" (the answer arrived while the stream was pooled)")
-			if w.known[spSlugLate] {
-				w.staleOK[s] = n / 3
-			} else {
-				w.fail("fresh-bytes", detail+" (the answer arrived while the stream was pooled)")
-				return
-			}
-		} else {
+		detail := fmt.Sprintf("GetStream returned stream %d to caller %d with %d unflushed byte(s) of an earlier use in its write buffer (the next Flush sends them)", id, c, n)
+		if w.dirtyPut[s] {
+			w.hit(spSlugWrite, detail)
+		}
+		if !(w.dirtyPut[s] && w.known[spSlugWrite]) {
 			w.fail("fresh-bytes", detail)
 			return
 		}
 	}
+	if n := spUnreadBytes(s); n != 0 {
+		detail := fmt.Sprintf("GetStream returned stream %d to caller %d carrying %d unread byte(s) of an earlier use", id, c, n)
+		// explanations by listed classes: answers that arrived while the stream was pooled; the previous user's own
+		// unflushed request, which ReleaseReadAndReuse swapped into the read buffer
+		fromLate := w.lateIn[s] * 3
+		if fromLate > n {
+			fromLate = n
+		}
+		fromWrite := 0
+		if w.dirtyPut[s] && s.sendBuf.Len() == 0 && n-fromLate == 3 {
+			fromWrite = 3
+		}
+		if fromLate > 0 {
+			w.hit(spSlugLate, detail+" (an answer arrived while the stream was pooled)")
+		}
+		if fromWrite > 0 {
+			w.hit(spSlugWrite, detail+" (they are the request the previous user wrote and did not flush: PutBack swapped the write buffer into the read buffer)")
+		}
+		switch {
+		case fromLate+fromWrite != n:
+			w.fail("fresh-bytes", detail)
+			return
+		case fromLate > 0 && !w.known[spSlugLate]:
+			w.fail("fresh-bytes", detail+" (an answer arrived while the stream was pooled)")
+			return
+		case fromWrite > 0 && !w.known[spSlugWrite]:
+			w.fail("fresh-bytes", detail+" (they are the request the previous user wrote and did not flush: PutBack swapped the write buffer into the read buffer)")
+			return
+		}
+		w.staleOK[s] = n / 3
+	}
+	delete(w.dirtyPut, s)
 	delete(w.lateIn, s)
 	w.res.OracleEvals["exclusive"]++
 	for d, h := range w.holder {
@@ -502,6 +530,22 @@ func (w *spWorld) oracleNoLeak(when string) {
 	}
 }
 
+// spCall runs one API call of the library with a watchdog: a call that does not return is reported as a harness
+// problem (inconclusive, never a violation) and stops the run.
+var spHung atomic.Value
+
+func spCall(what string, f func()) bool {
+	done := make(chan struct{})
+	go func() { f(); close(done) }()
+	select {
+	case <-done:
+		return true
+	case <-time.After(60 * time.Second):
+		spHung.Store(what + " did not return within 60 s")
+		return false
+	}
+}
+
 // ---- steps -----------------------------------------------------------------------------------------------------------
 
 func (w *spWorld) curPair() *vpPair { return w.pairs[len(w.pairs)-1] }
@@ -514,7 +558,12 @@ func (w *spWorld) do(st spStep) bool {
 			return false
 		}
 		before := w.ringObjs()
-		s, err := w.sm.GetStream()
+		var s *Stream
+		var err error
+		if !spCall("GetStream", func() { s, err = w.sm.GetStream() }) {
+			w.fail("hang", "GetStream did not return within 60 s")
+			return true
+		}
 		if err != nil || s == nil {
 			w.lastRes = "err"
 			if err == nil {
@@ -550,7 +599,8 @@ func (w *spWorld) do(st spStep) bool {
 				continue
 			}
 			delete(w.lateIn, o)
-			if !o.session.IsClosed() && spInTable(o) {
+			// the listed class: a stream that was open when it was pooled, found not open (closed by the peer meanwhile)
+			if !o.session.IsClosed() && spInTable(o) && w.pooledOpen[o] {
 				detail := fmt.Sprintf("GetStream discarded pooled stream %d (state %s) without closing it: it stays in the session's stream table (active count %d)",
 					w.idOf(o), spState(o), o.session.GetActiveStreamCount())
 				w.hit(spSlugDiscard, detail)
@@ -567,7 +617,12 @@ func (w *spWorld) do(st spStep) bool {
 			return false
 		}
 		s := w.streams[h-1]
-		w.sm.PutBack(s)
+		w.pooledOpen[s] = s.IsOpen()
+		w.dirtyPut[s] = s.sendBuf.len > 0
+		if !spCall("PutBack", func() { w.sm.PutBack(s) }) {
+			w.fail("hang", "PutBack did not return within 60 s")
+			return true
+		}
 		w.holder[st.C-1] = 0
 		delete(w.staleOK, s)
 		w.settleAll()
@@ -620,6 +675,20 @@ func (w *spWorld) do(st spStep) bool {
 			w.lastRes = err.Error()
 		}
 		w.settleAll()
+		return true
+	case "Write":
+		// the caller buffers a request and does not flush it
+		h := w.holderOf(st.C)
+		if h == 0 {
+			return false
+		}
+		s := w.streams[h-1]
+		if s.session.IsClosed() || s.sendBuf.Len() != 0 || spState(s) == "closed" || s.inFallbackState {
+			return false // (outside the model: writing into a stream the caller itself closed leaks the buffer - C09)
+		}
+		if _, err := s.BufferWriter().WriteBytes([]byte{byte(h), byte(w.gen[h-1]), 0x11}); err != nil {
+			w.fail("write", err.Error())
+		}
 		return true
 	case "Read":
 		h := w.holderOf(st.C)
@@ -841,7 +910,7 @@ func (w *spWorld) finish() {
 
 func spStepStr(st spStep) string {
 	switch st.A {
-	case "Get", "Put", "Read", "CloseHeld":
+	case "Get", "Put", "Read", "CloseHeld", "Write":
 		return fmt.Sprintf("%s(%d)", st.A, st.C)
 	case "Send":
 		return fmt.Sprintf("Send(%d,%v)", st.C, st.F)
@@ -1034,7 +1103,8 @@ func spRunConcurrent(job spConcJob, run int, res *spResult) {
 	select {
 	case <-doneCh:
 	case <-time.After(120 * time.Second):
-		res.Violations = append(res.Violations, spViolation{Kind: "fixture", Detail: "concurrent callers did not finish in 120 s"})
+		res.Violations = append(res.Violations, spViolation{Kind: "hang", Detail: "concurrent callers did not finish in 120 s"})
+		spHung.Store("concurrent callers did not finish")
 		return
 	}
 	res.ConcRuns++
@@ -1088,19 +1158,25 @@ func TestVS_StreamPool(t *testing.T) {
 	}
 	res := &spResult{Violations: []spViolation{}, Drift: []string{}, Samples: []string{}, KnownHits: map[string]int{},
 		KnownWit: map[string]string{}, OracleEvals: map[string]int{}, ConcTraces: [][]spConcEvent{}}
-	defer func() {
+	flush := func() {
 		out, _ := json.Marshal(res)
 		os.WriteFile(os.Getenv("VS_OUT"), out, 0o644)
-	}()
+	}
+	defer flush()
+	nviol := 0
 	for _, h := range job.Histories {
 		spRunHistory(h, job.Known, res, false)
-		if len(res.Violations) >= 8 {
+		if len(res.Violations) != nviol {
+			nviol = len(res.Violations)
+			flush() // a later hang must not lose what has been observed
+		}
+		if len(res.Violations) >= 8 || spHung.Load() != nil {
 			return
 		}
 	}
 	// seeded random histories (oracles only): any action, skipped when not applicable
 	rng := rand.New(rand.NewSource(job.Random.Seed))
-	acts := []string{"Get", "Get", "Put", "Put", "Send", "Send", "Read", "PeerReply", "PeerReply", "PeerClose", "CloseHeld",
+	acts := []string{"Get", "Get", "Put", "Put", "Send", "Send", "Read", "Write", "PeerReply", "PeerReply", "PeerClose", "CloseHeld",
 		"SessClose", "Teardown", "PoolDrain", "Rebuild"}
 	for run := 0; run < job.Random.N; run++ {
 		h := spHistory{Name: fmt.Sprintf("random seed=%d run=%d", job.Random.Seed, run), Cap: job.Random.Cap, Callers: job.Random.Callers, N: 0}
@@ -1122,13 +1198,17 @@ func TestVS_StreamPool(t *testing.T) {
 		res.RandomRuns++
 		res.RandomSteps += res.Steps - s0
 		res.Steps = s0
-		if len(res.Violations) > before && len(res.Violations) >= 4 {
+		if len(res.Violations) > before {
+			flush()
+		}
+		if len(res.Violations) >= 4 || spHung.Load() != nil {
 			return
 		}
 	}
 	for run := 0; run < job.Conc.Runs; run++ {
 		spRunConcurrent(job.Conc, run, res)
-		if len(res.Violations) >= 4 {
+		flush()
+		if len(res.Violations) >= 4 || spHung.Load() != nil {
 			return
 		}
 	}
